@@ -46,6 +46,9 @@ def make_spec(task):
         t['action'] += '; v = v + 1'
         if t['tid'] % 2 == 0:
             t['guard'] += " and (active(%r) or True)" % t['source']
+        else:
+            # a guard is only given the documented names: contract-only helpers must not leak into it
+            t['guard'] += " and not [x for x in ('sent', 'received', '__old__') if x in globals()]"
         for kind in KINDS:
             t[kind] = ["C('t/%d:%s%d', v, active(%r))" % (t['tid'], kind, j, t['source']) for j in range(2)]
     return spec
